@@ -7,6 +7,7 @@ import SdJwt.Lemmas.Example
 import SdJwt.Lemmas.Redact
 import SdJwt.Lemmas.RedactBound
 import SdJwt.Lemmas.CodecL
+import SdJwt.Lemmas.ObjectsL
 /-!
 # C02 — selective disclosure end to end: the verifier sees the original minus the redacted
 
@@ -287,3 +288,14 @@ theorem C02_presentation_build_bytes (c : Codec) (jwtDecode : String → Outcome
   C02_presentation_build (c.rt' jwtDecode kbDecode) (c.compact header payload sig) strs header payload cl ps R
     _ _ _ nonce now (compact_no_tilde c header payload sig) hs (getJwtPart_compact c header payload sig).1
     (decodeClaims_compact c hc payload) halg hcnf hr
+
+/-- **"every set of paths the holder redacts"**: what the holder keeps, hence the presentation it builds and
+what the verifier returns for it, depends on the redacted paths as a SET — calling `redact` in another order,
+or twice with the same path, changes nothing -/
+theorem C02_redaction_is_a_set (rt : Rt) (jwt : String) (ps : List PathEntry) (R R' : List String) (policy : Bool)
+    (h : ∀ p, p ∈ R ↔ p ∈ R') :
+    keptDisclosures ps R = keptDisclosures ps R' ∧
+    Verifier.verify rt (assemble jwt (keptDisclosures ps R)) policy =
+      Verifier.verify rt (assemble jwt (keptDisclosures ps R')) policy := by
+  have e := keptDisclosures_set ps R R' h
+  exact ⟨e, by rw [e]⟩
